@@ -32,6 +32,11 @@ func resultType(sig *types.Signature) types.Type {
 
 func (tr *FnTrans) callWith(c *ssa.CallCommon, site ssa.Instruction, pos token.Pos, args []Val) Val {
 	vc := tr.vc
+	if c.IsInvoke() {
+		tr.atCall(c.Method.Name())
+	} else if callee := c.StaticCallee(); callee != nil {
+		tr.atCall(callee.Name())
+	}
 	if b, ok := c.Value.(*ssa.Builtin); ok && !c.IsInvoke() {
 		return tr.builtin(b, c, args, pos)
 	}
@@ -53,7 +58,13 @@ func (tr *FnTrans) callWith(c *ssa.CallCommon, site ssa.Instruction, pos token.P
 	callee := c.StaticCallee()
 	if callee == nil {
 		// call of a function value
-		return tr.unknownCall("function value", sig, true)
+		fv := tr.val(c.Value)
+		tr.oblig("nil", "", sNot(sEq(fv.T, "0")), "call of a nil function value at "+tr.posStr(pos))
+		if fc := tr.w.functypeContract(c.Value.Type()); fc != nil {
+			vc.assume("assumed contract for values of function type " + typeKey(c.Value.Type()))
+			return tr.applyContract(fc, "func value "+typeKey(c.Value.Type()), sig, args, false, tr.pkg, pos)
+		}
+		return tr.unknownCall("function value of type "+typeKey(c.Value.Type()), sig, true)
 	}
 	if _, isClosure := c.Value.(*ssa.MakeClosure); isClosure {
 		// immediately applied closure: treat as unknown in-repo call
@@ -65,7 +76,10 @@ func (tr *FnTrans) callWith(c *ssa.CallCommon, site ssa.Instruction, pos token.P
 		if tr.w.inRepo(callee) {
 			return tr.unknownCall(name, sig, true)
 		}
-		panic(vcErrorf("call to external function %s without a trusted contract at %s", callee.String(), tr.posStr(pos)))
+		// external function without a trusted contract: arbitrary effect and
+		// result, assumed not to panic (listed as an assumption)
+		vc.assume("external function without contract, arbitrary effect, assumed not to panic: " + callee.String())
+		return tr.unknownCall(callee.String(), sig, true)
 	}
 	var cpkg *types.Package
 	if callee.Pkg != nil {
@@ -213,7 +227,7 @@ func (tr *FnTrans) builtin(b *ssa.Builtin, c *ssa.CallCommon, args []Val, pos to
 		return Val{K: KUnit}
 	case "close":
 		tr.oblig("nilchan", "", sNot(sEq(args[0].T, "0")), "close of nil channel at "+tr.posStr(pos))
-		tr.chanEvent("close", args[0], nil, pos)
+		tr.chanEvent("close", args[0], nil, pos, chanClass(c.Args[0]))
 		return Val{K: KUnit}
 	case "print", "println":
 		return Val{K: KUnit}
@@ -330,9 +344,45 @@ func (tr *FnTrans) appendOp(c *ssa.CallCommon, args []Val, pos token.Pos) Val {
 
 // chanEvent records a channel operation through the optional event contract
 // "chan.<op>" (ghost bookkeeping); without one it is a no-op.
-func (tr *FnTrans) chanEvent(op string, ch Val, v *Val, pos token.Pos) {
-	fc, ok := tr.w.contracts["chan."+op]
+// chanContract finds the event contract of a channel operation: first the
+// one declared for the channel's field ("chan.send:Client.ackQueue" in the
+// package's contract file), then the global one.
+func (tr *FnTrans) chanContract(op, class string) *FuncContract {
+	if class != "" && tr.pkg != nil {
+		if fc, ok := tr.w.contracts[tr.pkg.Path()+"\x00chan."+op+":"+class]; ok {
+			return fc
+		}
+	}
+	if fc, ok := tr.w.contracts["chan."+op]; ok {
+		return fc
+	}
+	return nil
+}
+
+// chanClass names the struct field a channel value was loaded from.
+func chanClass(v ssa.Value) string {
+	un, ok := v.(*ssa.UnOp)
+	if !ok || un.Op != token.MUL {
+		return ""
+	}
+	fa, ok := un.X.(*ssa.FieldAddr)
 	if !ok {
+		return ""
+	}
+	t := fa.X.Type()
+	if p, ok := t.Underlying().(*types.Pointer); ok {
+		t = p.Elem()
+	}
+	n, ok := t.(*types.Named)
+	if !ok {
+		return ""
+	}
+	return n.Obj().Name() + "." + structOf(t).Field(fa.Field).Name()
+}
+
+func (tr *FnTrans) chanEvent(op string, ch Val, v *Val, pos token.Pos, class string) {
+	fc := tr.chanContract(op, class)
+	if fc == nil {
 		return
 	}
 	args := []Val{ch}
@@ -342,7 +392,7 @@ func (tr *FnTrans) chanEvent(op string, ch Val, v *Val, pos token.Pos) {
 	if len(fc.Params) != len(args) {
 		return
 	}
-	tr.applyContract(fc, "chan."+op, types.NewSignatureType(nil, nil, nil, nil, nil, false), args, false, tr.pkg, pos)
+	tr.applyContract(fc, "chan."+op+":"+class, types.NewSignatureType(nil, nil, nil, nil, nil, false), args, false, tr.pkg, pos)
 }
 
 func (tr *FnTrans) goStmt(x *ssa.Go) {
@@ -354,7 +404,15 @@ func (tr *FnTrans) goStmt(x *ssa.Go) {
 func (tr *FnTrans) send(x *ssa.Send) {
 	ch := tr.val(x.Chan)
 	v := tr.val(x.X)
-	tr.chanEvent("send", ch, &v, x.Pos())
+	// an unconditional send statement may have its own event ("put"), distinct
+	// from a send that is one case of a select
+	if cl := chanClass(x.Chan); cl != "" && tr.pkg != nil {
+		if _, ok := tr.w.contracts[tr.pkg.Path()+"\x00chan.put:"+cl]; ok {
+			tr.chanEvent("put", ch, &v, x.Pos(), cl)
+			return
+		}
+	}
+	tr.chanEvent("send", ch, &v, x.Pos(), chanClass(x.Chan))
 }
 
 func (tr *FnTrans) recv(x *ssa.UnOp, ch Val) {
@@ -368,7 +426,7 @@ func (tr *FnTrans) recv(x *ssa.UnOp, ch Val) {
 	} else {
 		tr.vals[x] = r
 	}
-	tr.chanEvent("recv", ch, &r, x.Pos())
+	tr.chanEvent("recv", ch, &r, x.Pos(), chanClass(x.X))
 }
 
 func (tr *FnTrans) selectOp(x *ssa.Select) {
@@ -389,13 +447,13 @@ func (tr *FnTrans) selectOp(x *ssa.Select) {
 			fields = append(fields, r)
 			save := tr.curReach
 			tr.curReach = sAnd(save, sEq(idx, sNum(int64(i))))
-			tr.chanEventCond("recv", ch, &r, x.Pos())
+			tr.chanEventCond("recv", ch, &r, x.Pos(), chanClass(st.Chan))
 			tr.curReach = save
 		} else {
 			v := tr.val(st.Send)
 			save := tr.curReach
 			tr.curReach = sAnd(save, sEq(idx, sNum(int64(i))))
-			tr.chanEventCond("send", ch, &v, x.Pos())
+			tr.chanEventCond("send", ch, &v, x.Pos(), chanClass(st.Chan))
 			tr.curReach = save
 		}
 	}
@@ -405,13 +463,13 @@ func (tr *FnTrans) selectOp(x *ssa.Select) {
 
 // chanEventCond applies a channel event under the current (narrowed) reach
 // condition and merges the heap with the untouched one.
-func (tr *FnTrans) chanEventCond(op string, ch Val, v *Val, pos token.Pos) {
-	if _, ok := tr.w.contracts["chan."+op]; !ok {
+func (tr *FnTrans) chanEventCond(op string, ch Val, v *Val, pos token.Pos, class string) {
+	if tr.chanContract(op, class) == nil {
 		return
 	}
 	before := tr.cur.clone()
 	cond := tr.curReach
-	tr.chanEvent(op, ch, v, pos)
+	tr.chanEvent(op, ch, v, pos, class)
 	after := tr.cur
 	tr.cur = tr.mergeHeaps([]string{cond, "true"}, []*Heap{after, before})
 }
